@@ -241,6 +241,13 @@ func superviseFamily(r *engine.Run) {
 		}
 		cmd := exec.Command(self, args...)
 		cmd.Env = append(os.Environ(), childEnv+"=1", skipEnv+"="+strconv.Itoa(skip), "TZ=UTC", "GOMAXPROCS=2", "GOTRACEBACK=single")
+		// The engine's worker adopts descriptor 3 as its announce pipe whenever it
+		// is open (and wraps it in an *os.File even when it is not): give the
+		// child a harmless one.
+		if null, e := os.OpenFile(os.DevNull, os.O_WRONLY, 0); e == nil {
+			cmd.ExtraFiles = []*os.File{null}
+			defer null.Close()
+		}
 		var stderr bytes.Buffer
 		cmd.Stderr = &capWriter{w: &stderr, n: 256 << 10}
 		stdout, err := cmd.StdoutPipe()
